@@ -911,3 +911,47 @@ Theorem example_conforms_unique (r : registry) (s : settings) (teq : N -> N -> r
 Proof.
   intros Hg Hu. apply (example_conforms r s teq m Hg). apply unique_paths_consistent. exact Hu.
 Qed.
+
+(** ** 7. the repeat form is NOT available for an array of >= 2 elements of a non-[Copy] type:
+    every derivation of [conforms] for such an entry ends with the explicit-list constructor *)
+Lemma lookup_fun r id (t t' : ty) : lookup r id = Some t -> lookup r id = Some t' -> t' = t.
+Proof. intros H H'. rewrite H in H'. inversion H'; reflexivity. Qed.
+
+Theorem repeat_needs_copy (r : registry) (s : settings) (m : items) id t len e ts rest :
+  conforms r s m id ts rest ->
+  lookup r id = Some t -> t_def t = TDArray len e -> (2 <= len)%N -> copy_tyb r e = false ->
+  exists ts', ts = "["%string :: ts' /\ conf_sep (conforms r s m) e len ts' ("]"%string :: rest).
+Proof.
+  intros H L D Hlen Hnc.
+  inversion H as [id' t' p ts0 rest0 L' D' Hp
+                 |id' t' e' ts0 rest0 L' D' hc
+                 |id' t' st o rest0 L' D'
+                 |id' t' e' n ts0 rest0 L' D' hs
+                 |id' t' len' e' ts0 rest0 L' D' Hrp hc
+                 |id' t' len' e' ts0 rest0 L' D' hs
+                 |id' t' l ts0 rest0 L' D' ht
+                 |id' t' fs inner ts0 rest0 L' D' Hcow hc
+                 |id' t' fs p id0 ir Ly mk ts0 rest0 L' D' Hcow He Hp Hg Hsig hsh
+                 |id' t' fs p Ly mk ts0 rest0 L' D' Hcow He Hp Hl hsh
+                 |id' t' vs v p id0 ir sigs Ly ts0 rest0 L' D' Hv He Hp Hg Hsig Hin hsh
+                 |id' t' vs v p Ly ts0 rest0 L' D' Hv He Hp Hl hsh
+                 |id' t' vs v rest0 L' D' Hv Hn Hf Hp]; subst;
+    pose proof (lookup_fun r id t t' L L'); subst t'; rewrite D in D'; try discriminate D'.
+  - (* repeat form: excluded *)
+    inversion D'; subst. exfalso. destruct Hrp as [Hle|Hcp]; [lia|congruence].
+  - (* explicit list *)
+    inversion D'; subst. eexists. split; [reflexivity|exact hs].
+Qed.
+
+(** token shape: the first element is followed by a comma (and [len - 1] more elements), not by
+    the [; <len>usize ]] of the repeat form *)
+Corollary repeat_needs_copy_tokens (r : registry) (s : settings) (m : items) id t len e ts rest :
+  conforms r s m id ts rest ->
+  lookup r id = Some t -> t_def t = TDArray len e -> (2 <= len)%N -> copy_tyb r e = false ->
+  exists ts' mid, ts = "["%string :: ts' /\ conforms r s m e ts' (","%string :: mid) /\
+                  conf_sep (conforms r s m) e (N.pred len) mid ("]"%string :: rest).
+Proof.
+  intros H L D Hlen Hnc. destruct (repeat_needs_copy r s m id t len e ts rest H L D Hlen Hnc) as (ts' & -> & Hs).
+  inversion Hs as [fin0|ts0 fin0 Hc|n ts0 mid fin0 Hn Hc Hs']; subst; try lia.
+  exists ts', mid. split; [reflexivity|]. split; [exact Hc|]. rewrite N.pred_succ. exact Hs'.
+Qed.
